@@ -368,6 +368,12 @@ func runDetailPrint(c *core.Ctx) {
 				continue
 			}
 			c.Check(sh.DetailFields[f], key, pos, "field flows into a Print call inside the p.Detail() region", "annotation field never reaches a Print/Printf inside the p.Detail() region: it is missing from the layer's %+v entry")
+			if sx.IsErrorType(f.Type()) && sh.DetailFields[f] && sh.FmtSafe {
+				// a hidden error is handed to the printer as a value: the printer renders it with its own safe/unsafe
+				// structure. Rendered to a string first, it is one unsafe string - everything in it is redacted
+				c.Check(sh.DetailDirect[f], key+" (as a value)", pos, "the hidden error itself is an argument of the detail Print/Printf",
+					"the hidden error "+f.Name()+" is rendered to text before it is printed: the safe printer sees a plain string, so in redacted output and in reports the hidden error's safe parts are redacted along with the rest")
+			}
 		}
 		if et.Struct.NumFields() <= 1 || annotationOnly {
 			c.Ob(et.Name(), pos, true, fmt.Sprintf("%d Print call(s) inside the p.Detail() region", sh.DetailPrints))
